@@ -256,7 +256,8 @@ BINARIZES_FIRST = [('findwalks', 'CIJ'), ('reachdist', 'CIJ'), ('distance_bin', 
 
 
 def binarizes_first(fn_obj, param):
-    """fail-closed AST fact about the SOURCE: in the body of the function, the first statement that reads `param` rebinds
+    """fail-closed AST fact about the SOURCE: in the body of the function, the first statement that reads `param` -- float casts
+    `param = np.asarray(param, dtype=float)` aside, which keep every value -- rebinds
     `param` to binarize(param[, copy=...]) (optionally .astype(float)), possibly under `if <flag>:` where <flag> is a
     parameter whose default is True; nested function definitions that do not see `param` as a free variable are skipped;
     `binarize` resolves to bct.utils.binarize.  After that statement no statement can read the raw weights, i.e. the
@@ -294,9 +295,28 @@ def binarizes_first(fn_obj, param):
             return False
         return all(k.arg == 'copy' and isinstance(k.value, ast.Constant) and isinstance(k.value.value, bool) for k in v.keywords)
 
+    def is_float_cast(st):
+        """param = np.asarray(param, dtype=float) / np.array(param, dtype=float) / param.astype(float): the same values in float64
+        (zero stays zero, nonzero stays nonzero); the raw weights are still visible afterwards, so the scan goes on"""
+        if not (isinstance(st, ast.Assign) and len(st.targets) == 1 and isinstance(st.targets[0], ast.Name) and st.targets[0].id == param):
+            return False
+        v = st.value
+        if not isinstance(v, ast.Call):
+            return False
+        isf = lambda x: isinstance(x, ast.Name) and x.id == 'float'
+        isp = lambda x: isinstance(x, ast.Name) and x.id == param
+        if isinstance(v.func, ast.Attribute) and v.func.attr == 'astype' and isp(v.func.value):
+            return len(v.args) == 1 and isf(v.args[0]) and not v.keywords
+        if (isinstance(v.func, ast.Attribute) and v.func.attr in ('asarray', 'array') and isinstance(v.func.value, ast.Name) and v.func.value.id == 'np'):
+            return (len(v.args) == 1 and isp(v.args[0]) and len(v.keywords) == 1 and v.keywords[0].arg == 'dtype' and isf(v.keywords[0].value)
+                    and fn_obj.__globals__.get('np') is np)
+        return False
+
     for st in fd.body:
         if isinstance(st, ast.Expr) and isinstance(st.value, ast.Constant):
             continue                                        # docstring
+        if is_float_cast(st):
+            continue
         if isinstance(st, ast.FunctionDef):
             inner = [a.arg for a in st.args.args]
             if param in inner or not any(isinstance(x, ast.Name) and x.id == param for x in ast.walk(st)):
